@@ -630,3 +630,32 @@ Proof.
   exists [expand_with C17_sample [bs "FOO_S_STATUS_ACTIVE"]; expand_with C17_sample2 []].
   split; vm_compute; reflexivity.
 Qed.
+
+(* non-vacuity of C17_convert_list_settings: a declaration with list-request settings (outside the
+   quantifier) is rejected by the conversion with the list-request error *)
+Definition C17_list_sample : entity :=
+  mkE (bs "foo.v1") (bs "Foo") [] [mkK (mkU (bs "fooId") (KKey true None None) false false) false]
+      [] [bs "ACTIVE"] [] [] [] (Some (mkQ false [] true)) [].
+Example C17_list_settings_example :
+  list_settings C17_list_sample = true /\ in_quantifier C17_list_sample = false
+  /\ convert C17_list_sample = Err "listRequest is not supported on a method".
+Proof. repeat split; vm_compute; reflexivity. Qed.
+
+(* non-vacuity of the acceptance theorems for inline schemas nested in inline schemas: an inline object
+   holding an ARRAY of inline objects (with a map inside) and an inline oneof is inside the quantifier,
+   free of reserved names, and compiles *)
+Definition C17_nested_sample : entity :=
+  mkE (bs "foo.v1") (bs "Foo") [] [mkK (mkU (bs "fooId") (KKey true None None) false false) false]
+    [mkU (bs "outer")
+         (KInlineTree 0
+            [TF (bs "inner") (TKInline 0 1 [TF (bs "leaf") (TK (IScalar 9 (bs "string"))) false false [];
+                                            TF (bs "tags") (TKMap (IScalar 9 (bs "string"))) false false []] [])
+                false false [];
+             TF (bs "pick") (TKInline 1 0 [TF (bs "a") (TK (IScalar 9 (bs "string"))) false false []] []) false false [];
+             TF (bs "level") (TKInline 2 0 [] [bs "LOW"; bs "HIGH"]) false false []])
+         false false]
+    [bs "ACTIVE"] [] [] [] None [].
+Example C17_nested_example :
+  in_quantifier C17_nested_sample = true /\ reserved_free C17_nested_sample = true
+  /\ exists cs, compile C17_nested_sample = Ok cs /\ length cs = 15%nat.
+Proof. split; [vm_compute; reflexivity|]. split; [vm_compute; reflexivity|]. eexists. split; [vm_compute; reflexivity|reflexivity]. Qed.
